@@ -134,6 +134,22 @@ static void interp_T(const IntpC &c, vf::Obs &o) {
   for (const auto &arr : co) for (const auto &v : arr) { R e = exact(v); x2 += e * e; }
   R eps(0);
   if constexpr (!exactT) { eps = 1; for (int b = 0; b < std::numeric_limits<T>::digits - 1; b++) eps /= 2; }
+  if constexpr (!exactT) {
+    // Oracle B applies to problems that are uniquely solvable NUMERICALLY: the bundled solver is a rank-revealing QR that
+    // treats pivots below ~eps*n*max as zero, so for an (exactly non-singular but) numerically rank-deficient system it
+    // returns a truncated solution whose residual is not at backward-error level - that is the solver's documented
+    // behaviour, not a defect of the interpolation routine. Such problems (e.g. all boundary conditions of an order-5
+    // spline at one end of nine nodes: an initial-value problem) are discarded and counted; the exact oracle A keeps them.
+    const size_t N = rows.size();
+    Eigen::Matrix<long double, Eigen::Dynamic, Eigen::Dynamic> Mld = Eigen::Matrix<long double, Eigen::Dynamic, Eigen::Dynamic>::Zero((long)N, (long)N);
+    for (size_t r = 0; r < N; r++) for (const auto &[i, k, w] : rows[r].w) Mld((long)r, (long)(i * (order + 1) + k)) += (long double)w.get_d();
+    Eigen::JacobiSVD<Eigen::Matrix<long double, Eigen::Dynamic, Eigen::Dynamic>> svd(Mld);
+    long double smax = svd.singularValues()(0), smin = svd.singularValues()((long)N - 1);
+    long double cond = smin > 0 ? smax / smin : 1e300L;
+    long double limit = std::is_same_v<T, double> ? 1e9L : 1e12L;  // eps*n*cond stays below ~1e-5
+    vf::metric_max(std::string("log10_max_condition_number_accepted/") + Scalar<T>::name, cond <= limit ? (double)std::log10(cond) : 0.0);
+    if (cond > limit) { o.discard("numerically-rank-deficient"); return; }
+  }
   double scale = std::sqrt(M2.get_d()) * std::sqrt(x2.get_d()) + std::sqrt(b2.get_d());
   for (const auto &r : rows) {
     R lhs(0);
@@ -144,6 +160,7 @@ static void interp_T(const IntpC &c, vf::Obs &o) {
     } else {
       double ratio = scale > 0 ? res.get_d() / (eps.get_d() * scale) : (res == 0 ? 0 : 1e300);
       if (ratio > g_max_ratio) g_max_ratio = ratio;
+      vf::metric_max(std::string("max_residual_in_eps_scale_units/") + Scalar<T>::name, ratio);
       VCHECK(o, ratio <= 1024.0, r.what << ": residual " << res.get_d() << " = " << ratio << " eps*(||M||_F||x||+||b||) exceeds the backward-error level 2^10");
     }
   }
